@@ -160,17 +160,24 @@ Theorem C18_extrude_spec :
 Proof. exact extrude_t_spec. Qed.
 Print Assumptions C18_extrude_spec.
 
-(* split_spec, facet carry-over of to_meshtri: the code scans ONE shared iterator over the new facet table for all
-   tagged facets of a name.  For strictly lexicographically sorted facet tables and any duplicate-free tag all of
-   whose facets are still facets of the triangle mesh, the scan never runs dry (no StopIteration) and the j-th number
-   returned designates the new facet with the same vertex pair as the j-th smallest tagged facet *)
+(* split_spec, facet carry-over of to_meshtri (independent lookup by np.searchsorted on the keys v0 * nv + v1): for a
+   strictly lexicographically sorted table NF of vertex pairs below nv and ANY tag — any order, repeated entries allowed —
+   all of whose facets are still facets of the triangle mesh, nothing is dropped and the j-th number returned designates
+   the new facet with the same vertex pair as the j-th smallest tagged facet; for an oriented tag the new flag selects,
+   of the two triangles at the new facet, the one that is a child of the tagged quadrilateral c (k mod nt = c) *)
 Theorem C18_to_meshtri_boundaries :
-  forall (OF NF : mat nat) (b : list nat),
-    StronglySorted lex_lt OF -> StronglySorted lex_lt NF -> NoDup b -> Forall (fun k => k < length OF) b ->
-    (forall k, In k b -> In (nth k OF []) NF) ->
-    exists idx, gen_carry_boundary OF NF b = Some idx /\ length idx = length b /\
-                forall j, j < length b -> nth (nth j idx 0) NF [] = nth (nth j (sort_nat b) 0) OF [].
-Proof. intros OF NF b. rewrite gen_carry_boundary_is_model. exact (carry_boundary_spec OF NF b). Qed.
+  (forall (nv : nat) (OF NF : mat nat) (ixs : list nat),
+     StronglySorted lex_lt NF -> Forall (pair_ok nv) NF -> (forall k, In k ixs -> In (nth k OF []) NF) ->
+     length (gen_carry_boundary nv OF NF ixs) = length ixs /\
+     forall j, j < length ixs ->
+       nth (nth j (gen_carry_boundary nv OF NF ixs) 0) NF [] = nth (nth j (sort_nat ixs) 0) OF []) /\
+  (forall (nt : nat) (f2t0' f2t1' : list nat) (g : nat) (c : Z),
+     (Z.of_nat (nth g f2t0' 0 mod nt) = c \/ Z.of_nat (nth g f2t1' 0 mod nt) = c) ->
+     Z.of_nat (nth g (if lookup_flag nt f2t0' g c then f2t1' else f2t0') 0 mod nt) = c).
+Proof.
+  split; [|exact lookup_flag_spec].
+  intros nv OF NF ixs. rewrite gen_carry_boundary_is_model. exact (lookup_boundary_spec nv OF NF ixs).
+Qed.
 Print Assumptions C18_to_meshtri_boundaries.
 
 (* join_spec / remove_duplicate_nodes (vertices as coordinate tuples, after the code's rounding): the merged point
@@ -197,6 +204,102 @@ Proof.
   split; [exact dedupe_spec|]. split; [exact dedupe_cells | exact join_cells].
 Qed.
 Print Assumptions C18_join_spec.
+
+(* remove_duplicate_nodes, named boundaries (for ANY canonical form `canon` of facet tuples, e.g. _sort_entities):
+   newp is the vertex relabelling of the merge; whenever the relabelled old facet f is a facet of its owner cell in the
+   new mesh, the facet number found has the same canonical (merged) vertex tuple and belongs to that cell; a plain
+   boundary becomes the increasing duplicate-free list of the images; an oriented boundary keeps its side: the new flag
+   selects the old owner cell whenever that cell is one of the two distinct cells of the new facet *)
+Theorem C18_remove_duplicate_nodes_boundaries :
+  (forall (npts : nat) (g : nat -> nat) (t : mat nat) (v : nat),
+     In v (concat t) -> v < npts -> nth v (gen_remap_newp npts t (map (map g) t)) 0 = g v) /\
+  (forall (canon : list nat -> list nat) (nslots : nat) (newp : list nat) (F F' t2f' : mat nat) (f2t0 : list nat) (f : nat),
+     (exists s, s < nslots /\ matches canon newp F F' t2f' f2t0 s f = true) ->
+     canon (nth (gen_remap_newf canon nslots newp F F' t2f' f2t0 f) F' [])
+     = canon (map (fun v => nth v newp 0) (nth f F [])) /\
+     exists s, s < nslots /\ gen_remap_newf canon nslots newp F F' t2f' f2t0 f = cand t2f' f2t0 s f) /\
+  (forall (nf : nat -> nat) (ixs : list nat),
+     StronglySorted lt (fst (gen_remap_tag nf [] [] ixs None)) /\
+     forall g, In g (fst (gen_remap_tag nf [] [] ixs None)) <-> exists f, In f ixs /\ g = nf f) /\
+  (forall (f2t0' f2t1' : list Z) (g : nat) (c : Z),
+     nth g f2t0' (- 1)%Z <> nth g f2t1' (- 1)%Z -> (c = nth g f2t0' (- 1)%Z \/ c = nth g f2t1' (- 1)%Z) ->
+     nth g (if remap_flag f2t1' g c then f2t1' else f2t0') (- 1)%Z = c).
+Proof.
+  split; [exact remap_newp_spec|].
+  split; [intros canon nslots newp F F' t2f' f2t0 f H; exact (newf_spec canon nslots newp F F' t2f' f2t0 f H)|].
+  split; [intros nf ixs; exact (remap_plain_spec nf ixs) | exact remap_oriented_keeps_side].
+Qed.
+Print Assumptions C18_remove_duplicate_nodes_boundaries.
+
+(* morphed_spec: for every row type, every point array and every list of (optional) coordinate functions, row i of the
+   result is arg_i applied to the ORIGINAL array (the old row where arg_i is None or absent) *)
+Theorem C18_morphed_spec :
+  forall (R : Type) (p : list R) (args : list (option (list R -> R))) (d : R) (i : nat),
+    length args <= length p -> i < length p ->
+    nth i (gen_morphed_rows p args) d = match nth i args None with Some f => f p | None => nth i p d end.
+Proof. intros R p args d i. rewrite gen_morphed_is_model. exact (morphed_rows_spec p args d i). Qed.
+Print Assumptions C18_morphed_spec.
+
+(* oriented_spec: the flagged cells get their first two vertices exchanged, nothing else changes (same vertex set per
+   cell), and exchanging the first two vertices negates the simplex determinant: flipping exactly the negatively
+   oriented cells leaves every cell positive *)
+Theorem C18_oriented_spec :
+  (forall (flip : list bool) (r0 r1 : list nat) (rest : mat nat) (e : nat),
+     length flip = length r0 -> length r1 = length r0 -> e < length r0 ->
+     let t' := gen_oriented_t flip (r0 :: r1 :: rest) in
+     nth e (nth 0 t' []) 0 = (if nth e flip false then nth e r1 0 else nth e r0 0) /\
+     nth e (nth 1 t' []) 0 = (if nth e flip false then nth e r0 0 else nth e r1 0) /\
+     (forall r, 2 <= r -> nth r t' [] = nth r (r0 :: r1 :: rest) [])) /\
+  (forall a b c : pt2, det2 (sub2 a b) (sub2 c b) = (- det2 (sub2 b a) (sub2 c a))%Z) /\
+  (forall a b c d : pt3, det3 (sub3 a b) (sub3 c b) (sub3 d b) = (- det3 (sub3 b a) (sub3 c a) (sub3 d a))%Z).
+Proof. split; [exact swap_rows01_spec|]. split; [exact det2_swap | exact det3_swap]. Qed.
+Print Assumptions C18_oriented_spec.
+
+(* trace_spec: cell i of the trace mesh is facet facets[i]: its r-th vertex has the coordinates of the r-th vertex of
+   that facet, and no vertex of the trace mesh is unused (instance of reix_spec) *)
+Theorem C18_trace_spec :
+  forall (P : Type) (d : P) (p : list P) (Frows : mat nat) (facets : list nat) (r i : nat),
+    r < length Frows -> i < length facets ->
+    let ix := gen_trace_ix Frows facets in
+    nth (nth i (nth r (gen_reix_t ix) []) 0) (gen_reix_p d p ix) d = nth (nth (nth i facets 0) (nth r Frows []) 0) p d.
+Proof.
+  intros P d p Frows facets r i Hr Hi ix.
+  assert (Hrow : nth r ix [] = gather 0 (nth r Frows []) facets).
+  { unfold ix, gen_trace_ix, take_cols. apply (map_nth_in (fun row => gather 0 row facets) Frows r [] []). exact Hr. }
+  assert (Hlen : length ix = length Frows) by (unfold ix, gen_trace_ix, take_cols; apply map_length).
+  rewrite gen_reix_t_is_model, gen_reix_p_is_model.
+  rewrite (reix_geometry ix d p r i) by (rewrite ?Hlen, ?Hrow; unfold gather; rewrite ?map_length; assumption).
+  rewrite Hrow. unfold gather. rewrite (map_nth_in (fun k => nth k (nth r Frows []) 0) facets i 0 0) by exact Hi. reflexivity.
+Qed.
+Print Assumptions C18_trace_spec.
+
+(* join_spec for a LIST of meshes, m0 @ [m1, m2, ...]: with the regenerated offset every cell slot of the j-th mesh
+   keeps its vertex coordinates in the shared merged point table *)
+Theorem C18_matmul_list_spec :
+  forall (ps : list (list key)) (j : nat) (t : mat nat) (r c : nat),
+    j < length ps -> r < length t -> c < length (nth r t []) -> nth c (nth r t []) 0 < length (nth j ps []) ->
+    nth (nth c (nth r (gen_dedupe_t (concat ps)
+                         (map (map (fun v => v + gen_matmul_offset (map (@length key) ps) j)) t)) []) 0)
+        (gen_dedupe_p (concat ps)) []
+    = nth (nth c (nth r t []) 0) (nth j ps []) [].
+Proof.
+  intros ps j t r c. rewrite gen_matmul_offset_is_model. exact (matmul_cells ps j t r c).
+Qed.
+Print Assumptions C18_matmul_list_spec.
+
+(* to_meshtri(style='x'), centre nodes: numbered from the regenerated base, the centre row of the new connectivity points
+   at the appended centre points and every old vertex number at its old point — for point arrays of any length, in
+   particular with unused trailing points *)
+Theorem C18_to_meshtri_x_centres :
+  forall (P : Type) (d : P) (p centres : list P) (maxt1 nt nchild j k : nat),
+    length centres = nt -> j < nchild -> k < nt ->
+    nth (nth (k + j * nt) (centre_row (gen_quad_x_base (length p) maxt1) nt nchild) 0) (quad_x_points p centres) d
+    = nth k centres d /\
+    forall v, v < length p -> nth v (quad_x_points p centres) d = nth v p d.
+Proof.
+  intros P d p centres maxt1 nt nchild j k. rewrite gen_quad_x_base_is_npts. exact (quad_x_centres d p centres nt nchild j k).
+Qed.
+Print Assumptions C18_to_meshtri_x_centres.
 
 (* transform_spec: scaled multiplies every simplex determinant by the product of the factors, translated leaves it
    unchanged, mirrored (p - 2 (n.(p - p0)) n) multiplies it by 1 - 2 n.n, i.e. by -1 for the unit normal the code
